@@ -213,13 +213,18 @@ def d2_targets(chk: Check) -> None:
         if not isinstance(n, ast.For):
             continue
         it = n.iter
+        tgt = n.target
+        if isinstance(it, ast.Call) and src(it.func) == "enumerate" and \
+                it.args and isinstance(tgt, ast.Tuple) and \
+                len(tgt.elts) == 2:
+            it, tgt = it.args[0], tgt.elts[1]
         if isinstance(it, ast.Name):
             it = _rd(it.id, n) or it
         if "_get_merge_target_nodes" in src(it):
-            loops.append((n, it))
+            loops.append((n, it, tgt))
     if len(loops) != 1:
         raise AnalysisError("merge_with target loop not found")
-    loop, call = loops[0]
+    loop, call, loop_target = loops[0]
     ipoint = src(call.args[0]) if isinstance(call, ast.Call) and call.args \
         else "?"
     proc_v = src(call.args[1]) if isinstance(call, ast.Call) and \
@@ -237,7 +242,7 @@ def d2_targets(chk: Check) -> None:
     tnode = None
     for n in loop.body:
         if isinstance(n, ast.Assign) and \
-                src(n.value) == src(loop.target) + ".node":
+                src(n.value) == src(loop_target) + ".node":
             tnode = src(n.targets[0])
     if tnode is None:
         raise AnalysisError("target node variable not found")
@@ -277,7 +282,7 @@ def d2_targets(chk: Check) -> None:
         args = got[got.index("(") + 1:].rstrip(")").split(", ")
         # the right document is the last argument, or the last before the
         # coordinates of the target (C11-D1b judges those)
-        coord = src(loop.target)
+        coord = src(loop_target)
         ok = routine in got and args[0] == ipoint and args[1] == tnode and \
             (args[-1] == r or (args[-1] == coord and args[-2] == r))
         if ok:
@@ -602,6 +607,13 @@ def run(chk: Check) -> None:
     d2d_policy_aware_insertion(chk)
     d7_policy_for_incoming_node(chk)
     d9_every_match_is_a_target(chk)
+    from rules.shared import effects_not_shortcircuited_rule
+    effects_not_shortcircuited_rule(
+        chk, "C11-D10", ("yamlpath/merger/merger.py",),
+        ("_insert_", "_merge_", "merge_with"), 15)
+    from rules.shared import no_copies_of_document_nodes_rule
+    no_copies_of_document_nodes_rule(chk, "C11-D11",
+                                     ("yamlpath/merger/merger.py",), 20)
     from rules.c05 import d2c_per_rule_handler
     d2c_per_rule_handler(chk, "C11-D8",
                          ("MergerConfig._prepare_user_rules",))
